@@ -566,7 +566,7 @@ fn binary_replay(trees: &[Vec<Entry>], run: &mut Run) -> (u64, u64) {
             let out = std::process::Command::new(&bin).arg("--path").arg(&target).current_dir(&cwd).env_clear().env("PATH", "/usr/bin:/bin").output();
             let rep = std::fs::read_to_string(cwd.join("solstat_report.md"));
             match (out, rep) {
-                (Ok(o), Ok(r)) if o.status.success() => {
+                (Ok(o), Ok(r)) if crate::binx::completed(o.status.code()) => {
                     ok += 1;
                     let parsed = report::parse_report(&r, &tb);
                     // compare entries (file, line) per pattern as multisets
@@ -1143,7 +1143,7 @@ pub fn c13_directory_level(tier: Tier) -> DirLevel {
             let _ = std::fs::remove_file(cwd.join("solstat_report.md"));
             let o = std::process::Command::new(&bin).arg("--path").arg(&root).current_dir(&cwd).env_clear().env("PATH", "/usr/bin:/bin").output();
             if let Ok(o) = o {
-                if o.status.success() {
+                if crate::binx::completed(o.status.code()) {
                     if let Ok(b) = std::fs::read(cwd.join("solstat_report.md")) {
                         outs.push(b);
                         dl.binary_runs += 1;
